@@ -49,11 +49,12 @@ func edgeOperands(quick bool) [][]byte {
 	e := [][]byte{{}, {0x00}, {0x80}, {0x01}, {0x81}, {0x02}, {0x7f}, {0xff}, {0x10}, {0x11},
 		{0x00, 0x80}, {0x01, 0x80}, {0x01, 0x00, 0x80}, {0x7f, 0x00, 0x00, 0x80}, {0x01, 0x00}, {0x00, 0x01}, {0xff, 0x00}, {0xff, 0x80}, {0x80, 0x00}, {0xff, 0x7f},
 		{0xff, 0xff, 0xff, 0x7f}, {0xff, 0xff, 0xff, 0xff}, {0x00, 0x00, 0x00, 0x80}, {0x01, 0x00, 0x00, 0x00},
-		{0x00, 0x00, 0x00, 0x80, 0x00}, {0x01, 0x02, 0x03, 0x04, 0x05}, {0xff, 0xff, 0xff, 0xff, 0x7f}}
+		{0x00, 0x00, 0x00, 0x80, 0x00}, {0x01, 0x02, 0x03, 0x04, 0x05}, {0xff, 0xff, 0xff, 0xff, 0x7f},
+		append(rep(0x11, 32), 0x91), append(rep(0x22, 33), 0x80)}
 	if !quick {
 		e = append(e, [][]byte{{0x00, 0x00}, {0x80, 0x80}, {0x03}, {0x08}, {0x09}, {0x21}, {0x00, 0x00, 0x01},
 			{0xff, 0xff, 0xff, 0xff, 0xff, 0xff, 0xff, 0xff, 0x7f}, {0x00, 0x00, 0x00, 0x00, 0x00, 0x00, 0x00, 0x80},
-			append(rep(0x11, 32), 0x91), append(rep(0xff, 32), 0x7f), rep(0xab, 519), rep(0xab, 520), rep(0xab, 521),
+			append(rep(0xff, 32), 0x7f), rep(0xab, 519), rep(0xab, 520), rep(0xab, 521),
 			append(rep(0x00, 600), 0x01), rep(0x5a, 2000)}...)
 	}
 	return e
